@@ -407,7 +407,7 @@ mod engine {
                 stats.bump("model.serial_build_checked");
                 // C05: the history is non-trivial when a flush happens before finalize
                 // (accumulators), or there is at least one pair (direct entry points)
-                let hist = op.kind.starts_with("hist_");
+                let hist = op.kind.starts_with("hist_") || (op.kind == "gt_msm" && (op.c >> 4) & 0xf < 2);
                 let nt = if hist { op.b >= 1 && op.a >= op.b } else { op.a >= 1 };
                 nontrivial = nt;
                 if hist && nt {
